@@ -577,6 +577,7 @@ func Explore(prog *ssa.Program, fn *ssa.Function, opts ExploreOpts) (*Stats, err
 							opts.Setup(it)
 						}
 						if opts.InitPkg != nil {
+							it.RegisterStubs(opts.InitPkg)
 							err = it.RunInit(opts.InitPkg)
 						}
 					}
@@ -663,6 +664,7 @@ func (it *Interp) RunPath(fn *ssa.Function, prefix []int64) (res *PathResult) {
 	it.steps = 0
 	it.syncState = map[syncKey]*syncObj{}
 	it.pools = map[syncKey]*poolState{}
+	it.smaps = map[syncKey]*smapState{}
 	it.ghost = map[string]Value{}
 	it.clock = nil
 	it.clockN = 0
